@@ -50,6 +50,7 @@ func checkC11(r *Run) {
 	r.Rule("C11.R2.quorum", "propose returns a key with a nil error only behind a nil consultQuorum(ctx, res.Key, quorum) on a quorum built without error in the same iteration, after res.Key = idToPropose() and res.ClusterKey = cfg.ClusterKey", 5)
 	r.Rule("C11.R2.failure", "every iteration of the proposal loop that does not return stores a non-nil error in the named result (so the trailing 'return res, err' cannot report success), and the loop runs at least once", 2)
 	r.Rule("C11.R5.clusterkey", "cluster.Open hands pledge.Arbitrate a configuration whose ClusterKey was assigned from the cluster's key on every path; a joining node adopts the ClusterKey of the pledge response", 3)
+	r.Rule("C11.ERR", "no error returned by a call is discarded in the pledge and cluster-open code except the tabled sites (a swallowed juror or arbitration error admits a node without its quorum)", 1)
 	r.Rule("C11.R3.failures", "consultQuorum asks every quorum member, each goroutine returns the Send error unchanged, and the result is wg.Wait()", 3)
 	r.Rule("C11.R4.monotone", "responsible._proposedKey is assigned only in idToPropose, by highestNodeID(snapshot)+1 or by ++", 2)
 
@@ -171,6 +172,7 @@ func checkC11(r *Run) {
 
 	checkPropose(r, p)
 	checkClusterKey(r, p)
+	checkErrDrop(r, p, "C11.ERR", func(fn *FuncNode) bool { return fn.InPkgs("aspen/internal/cluster/pledge") || (fn.InPkgs("aspen/internal/cluster") && !fn.InPkgs("aspen/internal/cluster/gossip", "aspen/internal/cluster/store")) }, 40)
 	checkConsultQuorum(r, p)
 
 	// ---- R4
